@@ -7,7 +7,17 @@ from trie.exceptions import MissingTrieNode, MissingTraversalNode, TraversedPart
 
 ID = "C07"
 LEAN_IMPORTS = ["PyTrie.Props.C07"]
-THEOREMS = []
+THEOREMS = [
+    "PyTrie.Props.C07.fetches_on_path",
+    "PyTrie.Props.C07.get_missing_truthful",
+    "PyTrie.Props.C07.get_error_kind",
+    "PyTrie.Props.C07.get_same_or_missing",
+    "PyTrie.Props.C07.traverse_truthful",
+    "PyTrie.Props.C07.get_retry_progress",
+    "PyTrie.Props.C07.set_reads_before_writes",
+    "PyTrie.Props.C07.delete_reads_before_writes",
+    "PyTrie.Props.C07.set_delete_missing_atomic",
+]
 RULE = ("tries built by generated histories (prune on/off), then a subset of node bodies removed from the database (every "
         "subset for small tries, random subsets otherwise, single nodes, everything), then one operation — get, exists, set, "
         "set-to-empty, delete, traverse, traverse_from (from real and simulated nodes) — directly or inside squash_changes; "
